@@ -356,7 +356,7 @@ theorem checkPage_nochange {cfg : Cfg} {s : State n} {txs : List Tx} (hc : ¬ s.
     (hf : s.disk.findBetweenLC (s.mem.repairPage * cfg.pageSize) (s.mem.repairPage * cfg.pageSize + cfg.pageSize) = .ok txs)
     (he : xorOps.empty (xorOps.sub (pageXor cfg.pageSize s.mem.xorTree s.mem.repairPage) (calcXor cfg.pageSize txs)) = true) :
     checkPage cfg s = { s with mem := { s.mem with repairPage := nextPage cfg s } } := by
-  unfold Nuts.C08.checkPage nextPage
+  unfold Nuts.C08.checkPage Nuts.C08.checkPageWith nextPage
   simp only [hc, if_false, hf, he, if_true]
 
 theorem checkPage_replace {cfg : Cfg} {s : State n} {txs : List Tx} (hc : ¬ s.mem.circuit < 2)
@@ -367,7 +367,7 @@ theorem checkPage_replace {cfg : Cfg} {s : State n} {txs : List Tx} (hc : ¬ s.m
                     (calcXor cfg.pageSize txs)) s.disk.xorLeaves).2 },
         mem := { s.mem with xorTree := (persist (s.mem.xorTree.replace xorOps (s.mem.repairPage * cfg.pageSize)
                     (calcXor cfg.pageSize txs)) s.disk.xorLeaves).1, repairPage := nextPage cfg s } } := by
-  unfold Nuts.C08.checkPage nextPage
+  unfold Nuts.C08.checkPage Nuts.C08.checkPageWith nextPage
   simp only [hc, if_false, hf, he, Bool.false_eq_true]
 
 /-- **checkPage on a healthy state** (any circuit state, any current page): nothing but the page counter changes -/
@@ -376,7 +376,7 @@ theorem SInv.checkPage {cfg : Cfg} (G : Good cfg) {s : State n} (h : SInv cfg s)
     (checkPage cfg s).mem.xorTree = s.mem.xorTree ∧ (checkPage cfg s).mem.ibltTree = s.mem.ibltTree ∧
     (checkPage cfg s).mem.lcHigh = s.mem.lcHigh := by
   by_cases hc : s.mem.circuit < 2
-  · have e : Nuts.C08.checkPage cfg s = s := by unfold Nuts.C08.checkPage; simp only [hc, if_true]
+  · have e : Nuts.C08.checkPage cfg s = s := by unfold Nuts.C08.checkPage Nuts.C08.checkPageWith; simp only [hc, if_true]
     rw [e]; exact ⟨h, rfl, rfl, rfl, rfl⟩
   · obtain ⟨txs, hf, hcalc⟩ := calc_root G.pos h.g s.mem.repairPage
     have hi := h.x.inv xor_lawful G.pos
@@ -496,5 +496,32 @@ theorem SInv.corrupt_restart {cfg : Cfg} (G : Good cfg) {s : State n} (h : SInv 
         s.disk.ibltLeaves) s.disk.ibltLeaves
     rw [G.resets]
     exact h.i.load (iblt_lawful n) G.even _ rfl
+
+/-- `checkPageWith` differs from `checkPage` in the page counter only -/
+theorem checkPageWith_eq (cfg : Cfg) (lcSeen : Nat) (s : State n) :
+    ∃ rp, checkPageWith cfg lcSeen s = { checkPage cfg s with mem := { (checkPage cfg s).mem with repairPage := rp } } := by
+  unfold Nuts.C08.checkPage Nuts.C08.checkPageWith
+  by_cases hc : s.mem.circuit < 2
+  · exact ⟨s.mem.repairPage, by simp only [hc, if_true]⟩
+  · simp only [hc, if_false]
+    cases s.disk.findBetweenLC (s.mem.repairPage * cfg.pageSize) (s.mem.repairPage * cfg.pageSize + cfg.pageSize) with
+    | ok txs =>
+      simp only []
+      by_cases he : xorOps.empty (xorOps.sub (pageXor cfg.pageSize s.mem.xorTree s.mem.repairPage) (calcXor cfg.pageSize txs)) = true
+      · simp only [he, if_true]; exact ⟨_, rfl⟩
+      · simp only [he, Bool.false_eq_true, if_false]; exact ⟨_, rfl⟩
+    | err e => exact ⟨_, rfl⟩
+    | panic e => exact ⟨_, rfl⟩
+
+/-- the repair's write transaction on a healthy state — whatever clock value it saw before taking the lock — changes
+    nothing but the page counter -/
+theorem SInv.checkPageWith {cfg : Cfg} (G : Good cfg) {s : State n} (h : SInv cfg s) (lcSeen : Nat) :
+    SInv cfg (Nuts.C08.checkPageWith cfg lcSeen s) ∧ (Nuts.C08.checkPageWith cfg lcSeen s).disk = s.disk ∧
+    (Nuts.C08.checkPageWith cfg lcSeen s).mem.xorTree = s.mem.xorTree ∧
+    (Nuts.C08.checkPageWith cfg lcSeen s).mem.ibltTree = s.mem.ibltTree := by
+  obtain ⟨rp, e⟩ := checkPageWith_eq cfg lcSeen s
+  have c := h.checkPage G
+  rw [e]
+  exact ⟨⟨c.1.g, c.1.lc, c.1.x, c.1.i⟩, c.2.1, c.2.2.1, c.2.2.2.1⟩
 
 end Nuts.C08
